@@ -102,6 +102,13 @@ func execC37(r *simkit.Run) {
 	backupDir := filepath.Join(r.Dir, "backup")
 	os.MkdirAll(backupDir, 0755)
 	compactions, backups := 0, 0
+	// recorded root cause (after-source-compaction): compaction rewrites the live records in KEY order and
+	// keeps their append timestamps, and the incremental copy binary-searches the index by timestamp. It
+	// bites only when that order is not the order of the timestamps; otherwise the situation gets its own key.
+	writeSeq, seqCounter, hazard := map[int64]int{}, 0, false
+	// second recorded root cause: a delete whose tombstone the source compacts away before the next backup
+	// run is never seen by the backup (the documented local compaction keeps the backup's own live copy)
+	pendingDeletes, lostDeletes := 0, false
 
 	doBackup := func(st *simkit.Step) error {
 		// the steps of command/backup.go runBackup
@@ -178,6 +185,8 @@ func execC37(r *simkit.Run) {
 				data := payload37(&ws)
 				if _, err := operation.UploadData("http://"+vs.Addr()+"/"+fidOf(key), "", false, data, false, "application/octet-stream", nil, ""); err == nil {
 					model[key] = data
+					seqCounter++
+					writeSeq[key] = seqCounter
 					r.Log("put key=%d during the copy stream", key)
 					r.Probe("source-write-while-stream-open")
 					r.NonTrivial()
@@ -197,6 +206,17 @@ func execC37(r *simkit.Run) {
 		return res
 	}
 
+	situation := func() string {
+		switch {
+		case compactions > 0 && hazard:
+			return "after-source-compaction"
+		case compactions > 0 && lostDeletes:
+			return "delete-compacted-away-at-the-source-before-the-next-backup"
+		case compactions > 0:
+			return "after-source-compaction-that-kept-timestamp-order"
+		}
+		return "no-source-compaction"
+	}
 	compare := func(tag string) {
 		// open the backup through a Store and compare every key with the source
 		bs := storage.NewStore(nil, 9999, "backup", "backup:9999", []string{backupDir}, []int{8}, []util.MinFreeSpace{{Type: util.AsPercent, Percent: 0}}, "", storage.NeedleMapInMemory, []types.DiskType{types.HardDriveType})
@@ -215,10 +235,7 @@ func execC37(r *simkit.Run) {
 			nd.Id = types.Uint64ToNeedleId(uint64(k))
 			_, rerr := bs.ReadVolumeNeedle(vid, nd, nil)
 			want, live := model[k]
-			sit := "no-source-compaction"
-			if compactions > 0 {
-				sit = "after-source-compaction"
-			}
+			sit := situation()
 			switch {
 			case live && rerr != nil:
 				r.Violate("backup-misses-live-blob", sit, "%s: key %d is live on the source (%d bytes) but the backup answers %v (backup run %d, source compactions %d)", tag, k, len(want), rerr, backups, compactions)
@@ -245,11 +262,16 @@ func execC37(r *simkit.Run) {
 				continue
 			}
 			model[key] = data
+			seqCounter++
+			writeSeq[key] = seqCounter
 			r.Log("put key=%d len=%d", key, len(data))
 			r.Abs("put")
 		case "del":
 			key := st.Int("key")
 			if err := util.Delete("http://"+vs.Addr()+"/"+fidOf(key), ""); err == nil {
+				if _, was := model[key]; was {
+					pendingDeletes++
+				}
 				delete(model, key)
 			}
 			r.Log("del key=%d", key)
@@ -267,8 +289,20 @@ func execC37(r *simkit.Run) {
 			})
 			if err == nil {
 				compactions++
+				if pendingDeletes > 0 {
+					lostDeletes = true
+				}
+				last := 0
+				for k := int64(1); k <= 9; k++ {
+					if _, live := model[k]; live {
+						if writeSeq[k] < last {
+							hazard = true
+						}
+						last = writeSeq[k]
+					}
+				}
 			}
-			r.Log("source compaction err=%v", err)
+			r.Log("source compaction err=%v (records out of timestamp order so far: %v)", err, hazard)
 			r.Abs("compact")
 			r.NonTrivial()
 		case "backup":
@@ -277,9 +311,10 @@ func execC37(r *simkit.Run) {
 			r.Log("backup run %d -> err=%v", backups, err)
 			r.Abs(fmt.Sprintf("backup:%v", err == nil))
 			if err != nil {
-				r.Violate("backup-run-failed", map[bool]string{false: "no-source-compaction", true: "after-source-compaction"}[compactions > 0], "backup run %d failed: %v", backups, err)
+				r.Violate("backup-run-failed", situation(), "backup run %d failed: %v", backups, err)
 				return
 			}
+			pendingDeletes = 0
 			if st.Int("during") == 0 {
 				compare(fmt.Sprintf("after-backup-%d", backups))
 			}
